@@ -338,40 +338,53 @@ Fixpoint web_scan (fuel : nat) (ws tld : str) (end_index total_index : Z) : opti
       else Some (Some total_index)
   end.
 
+(* "Identify the end of the URL": None = IndexError *)
+Definition web_end_of_url (ws tld : str) (total_index : Z) : option Z :=
+  let end_index := total_index + len tld in
+  if end_index =? len ws then Some end_index
+  else match getc ws end_index with
+       | None => None
+       | Some c => if N.eqb c c_slash then Some (len ws) else Some end_index
+       end.
+
+(* start of the host: after the previous '.', (the later alternatives are
+   dead code in the source: rfind(...) + 1 is never -1) *)
+Definition web_start_index (ws : str) (total_index : Z) : Z :=
+  let start_index := rfind (sto ws total_index) [c_dot] + 1 in
+  let start_index := if start_index =? -1 then rfind (sto ws total_index) [c_slash] + 1 else start_index in
+  let start_index := if start_index =? -1 then rfind (sto ws total_index) [c_colon] + 1 else start_index in
+  let start_index := if start_index =? -1 then rfind (sto ws total_index) [c_space] + 1 else start_index in
+  start_index.
+
+(* (prefix, start_of_url), start_of_url = -1 while no prefix was found *)
+Definition web_prefix (ws : str) (start_index : Z) : option str * Z :=
+  let st0 : option str * Z := if start_index =? -1 then (None, 0) else (None, -1) in
+  let st1 : option str * Z :=
+    if snd st0 =? -1 then
+      let pi := rfind (sto ws (start_index + 1)) s_http_www in
+      if pi =? -1 then st0 else (Some s_http_www, pi)
+    else st0 in
+  let st2 : option str * Z :=
+    if snd st1 =? -1 then
+      let pi := rfind (sto ws start_index) s_http in
+      if pi =? -1 then st1 else (Some s_http, pi)
+    else st1 in
+  let st3 : option str * Z :=
+    if snd st2 =? -1 then
+      let pi := rfind (sto ws start_index) s_www in
+      if pi =? -1 then st2 else (Some s_www, pi)
+    else st2 in
+  st3.
+
 (* everything after an occurrence of the tld has been accepted;
    found = (url, host, prefix) *)
 Definition web_accept (s ws tld : str) (total_index : Z) : dres (str * str * option str) :=
-  let end_index := total_index + len tld in
-  let end_of_url :=
-    if end_index =? len ws then Some end_index
-    else match getc ws end_index with
-         | None => None
-         | Some c => if N.eqb c c_slash then Some (len ws) else Some end_index
-         end in
-  match end_of_url with
+  match web_end_of_url ws tld total_index with
   | None => DErr
   | Some end_of_url =>
-      let start_index := rfind (sto ws total_index) [c_dot] + 1 in
-      let start_index := if start_index =? -1 then rfind (sto ws total_index) [c_slash] + 1 else start_index in
-      let start_index := if start_index =? -1 then rfind (sto ws total_index) [c_colon] + 1 else start_index in
-      let start_index := if start_index =? -1 then rfind (sto ws total_index) [c_space] + 1 else start_index in
+      let start_index := web_start_index ws total_index in
       let host := slice ws start_index (total_index + len tld) in
-      let st0 : option str * Z := if start_index =? -1 then (None, 0) else (None, -1) in
-      let st1 : option str * Z :=
-        if snd st0 =? -1 then
-          let pi := rfind (sto ws (start_index + 1)) s_http_www in
-          if pi =? -1 then st0 else (Some s_http_www, pi)
-        else st0 in
-      let st2 : option str * Z :=
-        if snd st1 =? -1 then
-          let pi := rfind (sto ws start_index) s_http in
-          if pi =? -1 then st1 else (Some s_http, pi)
-        else st1 in
-      let st3 : option str * Z :=
-        if snd st2 =? -1 then
-          let pi := rfind (sto ws start_index) s_www in
-          if pi =? -1 then st2 else (Some s_www, pi)
-        else st2 in
+      let st3 := web_prefix ws start_index in
       let prefix := fst st3 in
       let start_of_url := if snd st3 =? -1 then 0 else snd st3 in
       let full_url := slice ws start_of_url end_of_url in
